@@ -55,6 +55,20 @@ type delivery struct {
 
 type partialDelivery struct{ *delivery }
 
+// Att returns the number of Start calls so far; SetAtt lets a new incarnation
+// continue the global attempt numbering (and the plan) of an earlier one.
+func (t *Target) Att() int {
+	t.mu.Lock()
+	defer t.mu.Unlock()
+	return t.att
+}
+
+func (t *Target) SetAtt(n int) {
+	t.mu.Lock()
+	t.att = n
+	t.mu.Unlock()
+}
+
 func (t *Target) id(a string) string {
 	if t.ID != nil {
 		return t.ID(a)
